@@ -56,6 +56,12 @@ pub enum Op {
     Heartbeat,
     AdvanceTime { secs: u32 },
     Restart,
+    /// the node issues (signs) its own invoice for hash h: it expects to be PAID under that
+    /// hash, which approves nothing outgoing
+    Issue { h: u8, amt: u8 },
+    /// force-close signature for the current holder commitment of a channel: its HTLCs stay
+    /// in flight (on chain), the channel takes no further updates
+    ForceClose { ch: u8 },
 }
 
 #[derive(Clone, Debug, Serialize, Deserialize)]
@@ -92,6 +98,8 @@ fn op_strat() -> impl Strategy<Value = Op> {
         5 => ch().prop_map(|ch| Op::RevokeHolder { ch }),
         6 => ch().prop_map(|ch| Op::PushHolder { ch }),
         2 => (ch(), h()).prop_map(|(ch, h)| Op::Fulfill { ch, h }),
+        2 => (h(), 0u8..3).prop_map(|(h, amt)| Op::Issue { h, amt }),
+        1 => ch().prop_map(|ch| Op::ForceClose { ch }),
         1 => Just(Op::Heartbeat),
         1 => prop_oneof![Just(10u32), Just(61u32), Just(4000u32), Just(90_000u32)].prop_map(|secs| Op::AdvanceTime { secs }),
         2 => Just(Op::Restart),
@@ -161,7 +169,7 @@ impl Prop for C06 {
         ]
     }
     fn cases(&self, tier: Tier) -> u32 {
-        tier.pick(200, 4000)
+        tier.pick(450, 5000)
     }
     fn min_nontrivial(&self, tier: Tier) -> usize {
         tier.pick(100, 1000)
@@ -401,6 +409,35 @@ impl Prop for C06 {
                     let t = w.clock.now() + Duration::from_secs(*secs as u64);
                     w.clock.set(t);
                     tag = "edit";
+                }
+                Op::Issue { h, amt } => {
+                    kind = 10;
+                    let a_msat = APPROVE_SAT[*amt as usize % 3] * 1000;
+                    let raw = InvoiceBuilder::new(Currency::BitcoinTestnet)
+                        .description("c06 issued".into())
+                        .payment_hash(Sha256::from_byte_array(phash(*h).0))
+                        .payment_secret(PaymentSecret([*h; 32]))
+                        .duration_since_epoch(w.clock.now())
+                        .min_final_cltv_expiry_delta(144)
+                        .amount_milli_satoshis(a_msat)
+                        .build_raw()
+                        .expect("raw invoice");
+                    let node = w.node.clone();
+                    let res = call(move || node.sign_bolt11_invoice(raw).map(|_| ()));
+                    tag = res.tag();
+                    if res.is_panic() { dead = true; }
+                }
+                Op::ForceClose { ch } => {
+                    kind = 11;
+                    let ci = *ch as usize % nchan;
+                    let next = w.with_chan(ci, |c| Ok(c.enforcement_state.next_holder_commit_num)).ok().unwrap();
+                    if next == 0 {
+                        tag = "skip";
+                    } else {
+                        let res = w.with_chan(ci, |c| c.sign_holder_commitment_tx_phase2(next - 1).map(|_| ()));
+                        tag = res.tag();
+                        if res.is_panic() { dead = true; }
+                    }
                 }
                 Op::Restart => {
                     kind = 9;
